@@ -237,7 +237,7 @@ func runC19(c *Ctx) {
 		if mayGet {
 			nGet++
 			facts := FactsAt(ret.Block())
-			underUseGet, underLimit := false, false
+			underUseGet, underLimit, urlLenOK := false, false, false
 			for _, f := range facts {
 				if call, ok := f.Cond.(*ssa.Call); ok && f.Truth {
 					for _, cal := range p.CalleesAt(call) {
@@ -260,12 +260,20 @@ func runC19(c *Ctx) {
 					}
 					if limY && (cmp.Op == token.LEQ || cmp.Op == token.LSS) || limX && (cmp.Op == token.GEQ || cmp.Op == token.GTR) {
 						underLimit = true
+						lenSide := cmp.X
+						if limX {
+							lenSide = cmp.Y
+						}
+						urlLenOK = urlLengthShape(lenSide)
 					}
 				}
 			}
 			c.Check(underUseGet && underLimit && !mayPost, "C19.2", FuncName(rl), "get-return", ret.Pos(),
 				"GET is returned only under useGet()==true and URL length <= maxGetURLBytes",
 				"GET can be issued without (useGet true: "+boolStr(underUseGet)+", length within maxGetURLBytes: "+boolStr(underLimit)+")")
+			c.Check(urlLenOK, "C19.2", FuncName(rl), "url-length-counts-separator", ret.Pos(),
+				"the length compared with the limit is len(path) + len(query) + 1 (the '?' separator is counted)",
+				"the URL length compared with maxGetURLBytes is not len(path)+len(query)+1: a URL one byte over the limit is still sent as GET")
 			c.Check(bodyConst && !body, "C19.3", FuncName(rl), "get-has-no-body", ret.Pos(),
 				"the GET return declares includeBody=false", "the GET return does not declare includeBody=false")
 		}
@@ -402,4 +410,36 @@ func containsSeg(path, seg string) bool {
 		}
 	}
 	return false
+}
+
+// urlLengthShape: the value is len(a)+len(b)+1 (in any association), or len of a
+// concatenation that contains the "?" separator.
+func urlLengthShape(v ssa.Value) bool {
+	nLen, nOne, other := 0, 0, 0
+	for _, l := range Origins(v) {
+		for _, op := range l.Ops {
+			if op != token.ADD {
+				other++
+			}
+		}
+		switch {
+		case l.Kind == "call" && CalleeName(l.Call) == "builtin len":
+			nLen++
+			// len(path + "?" + query)
+			for _, la := range Origins(l.Call.Common().Args[0]) {
+				if s, ok := ConstString(la.V); ok && la.Kind == "const" && s == "?" {
+					nOne++
+				}
+			}
+		case l.Kind == "const":
+			if k, ok := ConstInt(l.V); ok && k == 1 {
+				nOne++
+			} else {
+				other++
+			}
+		default:
+			other++
+		}
+	}
+	return other == 0 && nOne == 1 && nLen >= 1
 }
